@@ -20,6 +20,10 @@ type alt struct {
 // pathAbort ends a path for an engine-level reason (not a Go panic).
 type pathAbort struct{ why string }
 
+// nonTerm ends a path whose harness declared (vTerminates) that the code under test finishes within a step
+// budget, and it did not: reported as a violation of kind "nonterm".
+type nonTerm struct{ label string }
+
 type ndEntry struct {
 	Kind  string  // len, bytes, byte, u16, u32, u64, bool, choose, perm, ...
 	Terms []*Term // symbolic answers (evaluated under the model for replay)
@@ -82,6 +86,9 @@ type Exec struct {
 	nd      []ndEntry
 	obs     []obsEntry
 	steps   int
+	// vTerminates: step budget of the code under test (0: none) and the label it is reported under
+	termLimit int
+	termLabel string
 	depth   int
 	res     *PathResult
 	harness string
@@ -476,6 +483,9 @@ func (ex *Exec) runBlocks(fr *frame, b *ssa.BasicBlock) Value {
 		}
 		for _, in := range b.Instrs[nphi:] {
 			ex.steps++
+			if ex.termLimit > 0 && ex.steps > ex.termLimit {
+				panic(nonTerm{ex.termLabel})
+			}
 			if ex.steps > ex.sh.maxSteps {
 				panic(pathAbort{"BOUND steps"})
 			}
